@@ -69,6 +69,19 @@ def cases(plan, tier, shard, nshards, host):
             yield {"kind": "prog", "ver": rec["ver"], "id": rec["id"], "pyc": rec["pyc"], "P": P,
                    "codes": [{"name": c["name"], "len": c["len"], "ops": [[i[0], i[1], i[3], i[2]] for i in c["insts"]]} for c in rec["codes"]]}
     if host == common.PRIMARY:
+        # compiler-produced code of every version in the historical corpus (incl. 1.x, 2.0-2.6, 3.0-3.5, PyPy):
+        # reference = M-dis (conformance-checked above against all nine interpreters) fed with the table xdis picks
+        import glob
+        import os
+
+        m = 0
+        for f in sorted(glob.glob(os.path.join(common.REPO, "test", "bytecode_*", "*.pyc"))):
+            if "dropbox" in f or os.path.getsize(f) > (12000 if tier == "quick" else 200000):
+                continue
+            m += 1
+            if m % nshards == shard:
+                yield {"kind": "corpus", "path": os.path.relpath(f, common.REPO)}
+    if host == common.PRIMARY:
         # tables without an interpreter: M-dis with xdis's own table parameters
         from xdis.op_imports import op_imports
 
@@ -106,6 +119,8 @@ def ext_before_noarg(ops, P):
 def case_key(c):
     if c["kind"] == "skip":
         return "skip"
+    if c["kind"] == "corpus":
+        return "corpus:" + c["path"]
     if c["kind"] == "raw":
         return "raw:%s:%s" % (c["ver"], c["code"])
     if c["kind"] == "prog":
@@ -114,7 +129,7 @@ def case_key(c):
 
 
 def describe(c):
-    if c["kind"] == "skip":
+    if c["kind"] in ("skip", "corpus"):
         return c
     if c["kind"] == "raw":
         return {"kind": "raw", "version": c["ver"], "co_code": c["code"][:64], "tag": c["tag"], "reference_ops": c["ops"][:6]}
@@ -184,6 +199,8 @@ def run_case(case, ctx):
     if case["kind"] == "skip":
         ctx.count("excluded_" + case["why"])
         return
+    if case["kind"] == "corpus":
+        return run_corpus(case, ctx)
     ver = tuple(case["ver"])
     vtag = "%d.%d" % ver
     opc = xinst.opc_for(ver)
@@ -224,6 +241,50 @@ def run_case(case, ctx):
             ctx.violation("%s:raises:%s:prog" % (vtag, type(e).__name__), "Bytecode iteration raised %r in %s" % (e, case["id"]))
             continue
         compare_ops(ctx, vtag, "prog", insts, rc["ops"], rc["len"], P)
+
+
+def run_corpus(case, ctx):
+    import os
+    import re
+
+    from gen import mdis as M
+    from vlib.xcanon import walk_xcodes
+    from xdis.disasm import get_opcode
+    from xdis.load import load_module
+
+    try:
+        res = load_module(os.path.join(common.REPO, case["path"]))
+    except Exception:
+        ctx.count("corpus_not_loadable")  # C06/C12 judge that
+        return
+    ver, co, pypy = tuple(res[0][:2]), res[3], res[4]
+    fam = re.search(r"bytecode_([^/]+)/", case["path"]).group(1)
+    if not hasattr(co, "co_code") or ver >= (3, 11):
+        return  # 3.11+ (inline caches) are covered by the interpreter-backed cases
+    opc = get_opcode(ver, pypy)
+    P = {"wordcode": ver >= (3, 6), "have_arg": opc.HAVE_ARGUMENT, "ext": getattr(opc, "EXTENDED_ARG", None), "caches": {}}
+    for c in walk_xcodes(co):
+        ctx.count("corpus_code_objects")
+        code = c.co_code
+        try:
+            insts = xinst.xinsts(c, opc)
+            exp = M.mdis(code, P)
+        except Exception as e:
+            ctx.violation("corpus-%s:raises:%s" % (fam, type(e).__name__), "%r in %s/%s" % (e, case["path"], c.co_name))
+            continue
+        err = xinst.tiling_error(insts, len(code), P)
+        if err:
+            ctx.violation("corpus-%s:tiling" % fam, "%s in %s/%s" % (err, case["path"], c.co_name))
+            continue
+        got = [(i.offset, i.opcode, i.arg) for i in insts]
+        want = [(o, op, a) for (o, op, a, nc) in exp]
+        if got != want:
+            k = next(i for i, (g, w) in enumerate(zip(got, want)) if g != w) if len(got) == len(want) else -1
+            ctx.violation("corpus-%s:differs-from-M-dis" % fam, "at %s: xdis %s, M-dis %s in %s/%s" % (k, got[k] if k >= 0 else len(got), want[k] if k >= 0 else len(want), case["path"], c.co_name))
+        for i in insts:
+            if opc.opname[i.opcode] != i.opname or i.opname.startswith("<"):
+                ctx.violation("corpus-%s:undefined-opcode" % fam, "opcode %d (%s) at %d in compiler-produced code %s/%s" % (i.opcode, i.opname, i.offset, case["path"], c.co_name))
+                break
 
 
 def run_mdis_table(case, ctx):
